@@ -16,6 +16,9 @@ from .clocksim import StackedLTV
 NAME = "lqrsim"
 SIM_UNIT = "horizon steps solved"
 BUDGET = {"quick": {"runs": 8000, "wall": 80}, "thorough": {"runs": 60000, "wall": 1500}}
+ISOLATE = "chunk"       # every chunk of runs in a forked child of a pristine worker: what a run sees of the process is a
+                        # deterministic function of the runs before it in the same chunk (see runner.run_history_iso)
+CHUNK = 64
 SHRINK_LISTS = ("ops",)
 PROBES = {"C14": ["second-solve", "solve-at-stale-clock", "solve-after-jump", "solve-after-syscall", "ltv", "lti",
                   "ns=1", "batch>1", "T=1", "u:none", "u:zeros", "u:random", "u:prev", "u:prev-shifted-in-place", "x_init:non-contiguous", "x_init:expanded", "x_init:zero", "x_init:view-of-previous-plan", "solve:no_grad", "solve:split-backward-forward", "u:random-far", "two-lqr-share-system",
